@@ -379,6 +379,25 @@ func callBefore(fd *ast.FuncDecl, first, second string) (bool, error) {
 // pkgRegexVars: package-level `var x = regexp.MustCompile(<literal>)` of all packages read so far
 var pkgRegexVars = map[string]string{}
 
+// pkgRegexVarsMulti: package-level variables whose initialiser CONTAINS patterns (a table of formats, a struct of
+// compiled expressions): every ^-anchored string literal inside the initialiser
+var pkgRegexVarsMulti = map[string][]string{}
+
+// normRegex: spelling differences that do not change what a pattern accepts or how its groups are numbered
+func normRegex(lit string) string {
+	for {
+		i := strings.Index(lit, "(?P<")
+		if i < 0 {
+			return lit
+		}
+		j := strings.Index(lit[i:], ">")
+		if j < 0 {
+			return lit
+		}
+		lit = lit[:i] + "(" + lit[i+j+1:]
+	}
+}
+
 func collectRegexVars(files map[string]*ast.File) {
 	for _, f := range files {
 		for _, d := range f.Decls {
@@ -395,9 +414,19 @@ func collectRegexVars(files map[string]*ast.File) {
 					if i < len(vs.Values) {
 						if c, ok := vs.Values[i].(*ast.CallExpr); ok && exprString(c.Fun) == "regexp.MustCompile" && len(c.Args) == 1 {
 							if bl, ok := c.Args[0].(*ast.BasicLit); ok {
-								pkgRegexVars[f.Name.Name+"."+n.Name] = strings.Trim(bl.Value, "`\"")
+								pkgRegexVars[f.Name.Name+"."+n.Name] = normRegex(strings.Trim(bl.Value, "`\""))
+								continue
 							}
 						}
+						ast.Inspect(vs.Values[i], func(x ast.Node) bool {
+							if bl, ok := x.(*ast.BasicLit); ok && bl.Kind == token.STRING {
+								if lit := strings.Trim(bl.Value, "`\""); strings.HasPrefix(lit, "^") {
+									key := f.Name.Name + "." + n.Name
+									pkgRegexVarsMulti[key] = append(pkgRegexVarsMulti[key], normRegex(lit))
+								}
+							}
+							return true
+						})
 					}
 				}
 			}
@@ -446,7 +475,7 @@ func regexLiteralsOf(fd *ast.FuncDecl, set map[string]bool, follow func(string))
 		}
 		if c, ok := n.(*ast.CallExpr); ok && exprString(c.Fun) == "regexp.MustCompile" && len(c.Args) == 1 {
 			if bl, ok := c.Args[0].(*ast.BasicLit); ok {
-				set[strings.Trim(bl.Value, "`\"")] = true
+				set[normRegex(strings.Trim(bl.Value, "`\""))] = true
 			} else {
 				set["<"+exprString(c.Args[0])+">"] = true
 			}
@@ -454,10 +483,17 @@ func regexLiteralsOf(fd *ast.FuncDecl, set map[string]bool, follow func(string))
 		// a pattern handed as a string to a helper that compiles it: any string literal anchored with ^
 		if bl, ok := n.(*ast.BasicLit); ok && bl.Kind == token.STRING {
 			if lit := strings.Trim(bl.Value, "`\""); strings.HasPrefix(lit, "^") {
-				set[lit] = true
+				set[normRegex(lit)] = true
 			}
 		}
 		if id, ok := n.(*ast.Ident); ok {
+			for k, vs := range pkgRegexVarsMulti {
+				if strings.HasSuffix(k, "."+id.Name) && pkgOfFunc[fd] == strings.TrimSuffix(k, "."+id.Name) {
+					for _, v := range vs {
+						set[v] = true
+					}
+				}
+			}
 			for k, v := range pkgRegexVars {
 				if strings.HasSuffix(k, "."+id.Name) && pkgOfFunc[fd] == strings.TrimSuffix(k, "."+id.Name) {
 					set[v] = true
